@@ -94,7 +94,10 @@ def _lib_send_json(ev) -> list:
 def _scope_json(scope: dict) -> dict:
     return {"type": scope["type"], "method": scope.get("method", "GET"), "http_version": scope["http_version"],
             "raw_path": b2s(scope["raw_path"]), "query_string": b2s(scope["query_string"]),
-            "headers": S.headers_json(scope["headers"])}
+            "headers": S.headers_json(scope["headers"]),
+            # not predicted by the Lean model (compared by the monitors only)
+            "_path": scope["path"], "_scheme": scope["scheme"], "_client": list(scope["client"] or []), "_server": list(scope["server"] or []),
+            "_root_path": scope["root_path"]}
 
 
 async def drive_h11(cfg: dict, ops) -> Tuple[List[dict], List[dict], dict]:
@@ -340,6 +343,8 @@ def normalise_outs(outs: list) -> list:
             res.append(["libSend", [o[1][0], o[1][1], hs], o[2]])
         elif o[0] in ("upRaw", "data"):
             continue
+        elif o[0] == "spawn":
+            res.append(["spawn", o[1], {k: v for k, v in o[2].items() if not k.startswith("_")}])
         elif o[0] == "response":      # ws stream events never surface here
             continue
         else:
